@@ -3,6 +3,7 @@ package c11
 import (
 	"fmt"
 	"math/rand"
+	"os"
 	"strings"
 )
 
@@ -22,6 +23,18 @@ type tok struct {
 }
 
 var letters = "abcdefghijklmnopqrstuvwxyz"
+
+// lifted reports whether the restriction / guard that keeps the known defect id out of the compared
+// domain is lifted (C11_LIFT=D1,D6,... ; development only: used to validate a repair of /repo on a
+// scratch copy before the restriction is removed from this file).
+func lifted(id string) bool {
+	for _, s := range strings.Split(os.Getenv("C11_LIFT"), ",") {
+		if s == id || s == "all" {
+			return true
+		}
+	}
+	return false
+}
 
 func pick[T any](r *rand.Rand, xs ...T) T { return xs[r.Intn(len(xs))] }
 
@@ -130,17 +143,19 @@ func (g *pgen) seq(depth int, want int) {
 			n := g.spanNode(depth)
 			// finding D1: the start spacing of an inline box is not charged when its own content
 			// is split, so in wrapping modes a span with start spacing holds one unbreakable word
-			tight := g.wrap && n.ML+n.BL+n.PL > 0
-			if tight && g.r.Intn(2) == 0 {
+			single := g.wrap && n.ML+n.BL+n.PL > 0 && !lifted("D1")
+			if single && g.r.Intn(2) == 0 {
 				n.ML, n.BL, n.PL = 0, 0, 0
-				tight = false
+				single = false
 			}
-			g.toks = append(g.toks, tok{k: 'o', node: n, tight: tight})
+			// finding D15: the start spacing of an inline box is dropped when the box begins with
+			// a collapsible space that is skipped at a line start; no space just inside such an edge
+			g.toks = append(g.toks, tok{k: 'o', node: n, tight: n.ML+n.BL+n.PL > 0 && !lifted("D15")})
 			first := len(g.toks)
 			switch {
-			case tight:
+			case single:
 				g.toks = append(g.toks, tok{k: 'w', s: g.wordH(false)})
-			case g.wrap && n.MR+n.BR+n.PR > 0:
+			case g.wrap && n.MR+n.BR+n.PR > 0 && !lifted("D9"):
 				// finding D9: the end spacing is charged by re-splitting the last child only, so
 				// a span with end spacing holds nothing but words (one text node)
 				for k := 1 + g.r.Intn(4); k > 0; k-- {
@@ -157,7 +172,7 @@ func (g *pgen) seq(depth int, want int) {
 					leaf = false
 				}
 			}
-			g.toks = append(g.toks, tok{k: 'x', tight: g.wrap && n.MR+n.BR+n.PR > 0, leaf: leaf})
+			g.toks = append(g.toks, tok{k: 'x', tight: g.wrap && n.MR+n.BR+n.PR > 0 && !lifted("D7"), leaf: leaf || lifted("D11")})
 			produced++
 		case g.feat.IB && g.r.Intn(8) == 0:
 			ib := Node{K: KIB, W: pick(g.r, g.u, g.f, 2*g.f, 3*g.u), H: pick(g.r, 1, g.u, g.f, 2*g.f, 3*g.f)}
@@ -183,7 +198,7 @@ func (g *pgen) seq(depth int, want int) {
 }
 
 func (g *pgen) sep(a, b tok, nedges int, topLevel bool) string {
-	glue := g.feat.Glue && (topLevel || !g.wrap)
+	glue := g.feat.Glue && (topLevel || !g.wrap || lifted("D4"))
 	space := func() string {
 		if g.ws == "pre-wrap" {
 			// preserved spaces: only single spaces between words and none before a forced break
@@ -213,7 +228,7 @@ func (g *pgen) sep(a, b tok, nedges int, topLevel bool) string {
 		}
 		return space()
 	}
-	if b.k == 'n' {
+	if b.k == 'n' && !lifted("D3") {
 		// finding D3: a collapsible space before <br> is not removed; kept out
 		return ""
 	}
